@@ -24,6 +24,22 @@ def integral_test(c, v):
     return c in forms
 
 
+def from_f64_ok(F, m):
+    """(ok, detail, term) for <Number as From<f64>>::from"""
+    ff = F.by_key.get("<eval_number::number::Number as std::convert::From<f64>>::from")
+    if ff is None:
+        return False, "From<f64> for Number not found", None
+    tf = m.tb.fn_term(ff, inline_pure=True)
+    v = ("param", T.param_ids(ff)[0][1])
+    FLOATV = ("ctor", "Number::Float", v)
+    e = M(("if", "?c", ("if", "?g", ("ctor", "Number::Integer", ("cast", "f64", "i64", "?t")), FLOATV), FLOATV), tf)
+    if e is not None and integral_test(e["?c"], v):
+        okg, why = guard_ok(e["?g"], e["?t"])
+        ok_t = e["?t"] in (v, ("call", "f64::floor", v), ("call", "f64::trunc", v))
+        return okg and ok_t, why or "ok", tf
+    return False, "not the canonical integral/range decision tree: " + T.show(tf)[:200], tf
+
+
 def main(tier):
     run, F, models = setup(PID, tier, LEVEL)
     run.trusted = ["IEEE semantics of floor/trunc/fract and comparisons (inf - inf = NaN, NaN == x is false)", "`i64::MAX as f64` = 2^63 and `i64::MIN as f64` = -2^63 exactly (folded by the checker)",
